@@ -127,6 +127,17 @@ func (g *gen) mutateVal(v interface{}, depth int) interface{} {
 		}
 		return o
 	case []interface{}:
+		if len(x) >= 2 && g.r.intn(4) == 0 {
+			// the same elements in another order (rotation or one swap): a target that differs from the source by ORDER only
+			a := append([]interface{}{}, x...)
+			if g.r.intn(2) == 0 {
+				a = append(a[1:], a[0])
+			} else {
+				i, j := g.r.intn(len(a)), g.r.intn(len(a))
+				a[i], a[j] = a[j], a[i]
+			}
+			return a
+		}
 		a := make([]interface{}, 0, len(x)+1)
 		for _, c := range x {
 			switch g.r.intn(7) {
